@@ -30,6 +30,10 @@ import EncodingRs.Lemmas.LifeLift
   without-replacement method on the same stream (via `C10.dhist_full_eq_dref`), and the two decoders
   end with the same `encoding()`; `decoder_repl_histories_agree`: two with-replacement histories
   agree; `decoder_builtin_eq_manual`: the single-call special case.
+* `DMixHist` / **`dmixhist_eq_dref`** / `new_decoder_mixed_histories_agree`: histories in which the caller
+  switches between the manual procedure over the without-replacement method and the built-in
+  replacement from call to call assemble the same text (`DRHist.toMix`, `DHistFull.toMix`: the two pure
+  kinds of history are special cases).
 
 Everything except the `new_decoder_*` / `decoder_*` corollaries is generic in the nominal family
 (`FamBB F`, proved for all 13 variant decoders: `C10.famBB_variant`).  No hypothesis about bytes being
@@ -340,6 +344,121 @@ theorem decoder_builtin_eq_manual (v : Gen.Variant) (nom : Nominal) (bom : BomHa
   rw [he1] at he2 he3
   rw [h2]
   exact ⟨he2, he3⟩
+
+/-! ### histories that mix the two methods
+
+A caller may switch between `decode_to_*_without_replacement` (appending U+FFFD itself for every
+`Malformed`: the documented manual procedure) and `decode_to_*` from call to call. -/
+
+/-- what the manual procedure appends after the output of a without-replacement call -/
+def manualRepl : Res → List Nat
+  | .malformed _ _ => [0xFFFD]
+  | _ => []
+
+theorem textOf_resEv (p : Nat) (res : Res) : textOf true (resEv p res) = manualRepl res := by
+  cases res <;> simp [resEv, textOf, manualRepl, mkErr]
+
+/-- a protocol-following history in which every call is either a without-replacement call (text:
+its output plus one U+FFFD if it returned `Malformed`) or a with-replacement call (text: its output);
+any cuts, stop policies, sinks; the rest is pushed again after `OutputFull` / `Malformed`; the history
+ends with the `last` call that returns `InputEmpty` -/
+inductive DMixHist : Decoder F → Nat → List Nat → List Nat → Decoder F → Prop
+  | rawFinal (k : Sink) (d : Decoder F) (pos : Nat) (rem : List Nat) (b1 b2 : Budget) (read : Nat)
+      (out : List Nat) (d' : Decoder F) (inner : List (List Nat × Res × Nat)) :
+      d.rawCall k rem true b1 b2 = .ok .inputEmpty read out d' inner →
+      DMixHist d pos rem out d'
+  | rawLast (k : Sink) (d : Decoder F) (pos : Nat) (rem : List Nat) (b1 b2 : Budget) (res : Res) (read : Nat)
+      (out : List Nat) (d' : Decoder F) (inner : List (List Nat × Res × Nat)) (text' : List Nat)
+      (dfin : Decoder F) :
+      d.rawCall k rem true b1 b2 = .ok res read out d' inner → res ≠ .inputEmpty →
+      DMixHist d' (pos + read) (rem.drop read) text' dfin →
+      DMixHist d pos rem (out ++ manualRepl res ++ text') dfin
+  | rawChunk (k : Sink) (d : Decoder F) (pos : Nat) (src rest : List Nat) (b1 b2 : Budget) (res : Res)
+      (read : Nat) (out : List Nat) (d' : Decoder F) (inner : List (List Nat × Res × Nat)) (text' : List Nat)
+      (dfin : Decoder F) :
+      d.rawCall k src false b1 b2 = .ok res read out d' inner →
+      DMixHist d' (pos + read) (src.drop read ++ rest) text' dfin →
+      DMixHist d pos (src ++ rest) (out ++ manualRepl res ++ text') dfin
+  | replFinal (k : Sink) (d : Decoder F) (pos : Nat) (rem : List Nat) (fuel : Nat) (bs : List (Budget × Budget))
+      (t : DReplRes F) :
+      Decoder.replCall k true fuel d rem bs = some (some t) → t.res = .inputEmpty →
+      DMixHist d pos rem t.out t.d
+  | replLast (k : Sink) (d : Decoder F) (pos : Nat) (rem : List Nat) (fuel : Nat) (bs : List (Budget × Budget))
+      (t : DReplRes F) (text' : List Nat) (dfin : Decoder F) :
+      Decoder.replCall k true fuel d rem bs = some (some t) → t.res ≠ .inputEmpty →
+      DMixHist t.d (pos + t.read) (rem.drop t.read) text' dfin →
+      DMixHist d pos rem (t.out ++ text') dfin
+  | replChunk (k : Sink) (d : Decoder F) (pos : Nat) (src rest : List Nat) (fuel : Nat)
+      (bs : List (Budget × Budget)) (t : DReplRes F) (text' : List Nat) (dfin : Decoder F) :
+      Decoder.replCall k false fuel d src bs = some (some t) →
+      DMixHist t.d (pos + t.read) (src.drop t.read ++ rest) text' dfin →
+      DMixHist d pos (src ++ rest) (t.out ++ text') dfin
+
+/-- **any mix of the manual procedure and the built-in replacement yields the U+FFFD-replaced text of
+the documented BOM semantics** -/
+theorem dmixhist_eq_dref (H : FamBB F) (d : Decoder F) (pos : Nat) (rem : List Nat) (text : List Nat)
+    (dfin : Decoder F) (hd : NewInv d pos) (h : DMixHist d pos rem text dfin) :
+    text = textOf true (dref d rem pos) := by
+  induction h with
+  | rawFinal k d pos rem b1 b2 read out d' inner hcall =>
+    have hs := rawCall_newInv H k d pos rem [] true b1 b2 (fun _ => rfl) hd _ read out d' inner hcall
+    have h2 := hs.2
+    simp only [List.append_nil, resEv] at h2
+    rw [rawCall_final_nothing H.ok k d d' pos rem b1 b2 read out inner hd.fresh hcall, List.append_nil] at h2
+    rw [← h2, textOf_cps]
+  | rawLast k d pos rem b1 b2 res read out d' inner text' dfin hcall _ _ ih =>
+    have hs := rawCall_newInv H k d pos rem [] true b1 b2 (fun _ => rfl) hd res read out d' inner hcall
+    have h2 := hs.2
+    simp only [List.append_nil] at h2
+    rw [ih hs.1, ← h2, textOf_append, textOf_append, textOf_cps, textOf_resEv]
+  | rawChunk k d pos src rest b1 b2 res read out d' inner text' dfin hcall _ ih =>
+    have hs := rawCall_newInv H k d pos src rest false b1 b2 (fun h => by cases h) hd res read out d' inner hcall
+    rw [ih hs.1, ← hs.2, textOf_append, textOf_append, textOf_cps, textOf_resEv]
+  | replFinal k d pos rem fuel bs t hrun hres =>
+    exact drhist_eq_dref H d pos rem t.out t.d hd (.final k d pos rem fuel bs t hrun hres)
+  | replLast k d pos rem fuel bs t text' dfin hrun _ _ ih =>
+    have hs := replCall_sound H k true fuel d rem bs t pos [] (fun _ => rfl) hd hrun
+    have ht := replCall_text H k true fuel d rem bs t pos [] (fun _ => rfl) hd hrun
+    simp only [List.append_nil] at ht
+    rw [ih hs.1, ht]
+  | replChunk k d pos src rest fuel bs t text' dfin hrun _ ih =>
+    have hs := replCall_sound H k false fuel d src bs t pos rest (fun h => by cases h) hd hrun
+    have ht := replCall_text H k false fuel d src bs t pos rest (fun h => by cases h) hd hrun
+    rw [ih hs.1, ht]
+
+/-- a history of with-replacement calls is a mixed history -/
+theorem DRHist.toMix {d : Decoder F} {pos : Nat} {rem out : List Nat} {dfin : Decoder F}
+    (h : DRHist d pos rem out dfin) : DMixHist d pos rem out dfin := by
+  induction h with
+  | final k d pos rem fuel bs t hrun hres => exact .replFinal k d pos rem fuel bs t hrun hres
+  | lastStep k d pos rem fuel bs t out' dfin hrun hne _ ih => exact .replLast k d pos rem fuel bs t out' dfin hrun hne ih
+  | chunkStep k d pos src rest fuel bs t out' dfin hrun _ ih => exact .replChunk k d pos src rest fuel bs t out' dfin hrun ih
+
+/-- a history of without-replacement calls, read with the manual procedure, is a mixed history -/
+theorem DHistFull.toMix {d : Decoder F} {pos : Nat} {rem : List Nat} {e : List Ev} {dfin : Decoder F}
+    (h : DHistFull d pos rem e dfin) : DMixHist d pos rem (textOf true e) dfin := by
+  induction h with
+  | final k d pos rem b1 b2 read out d' inner hcall =>
+    rw [textOf_cps]
+    exact .rawFinal k d pos rem b1 b2 read out d' inner hcall
+  | lastStep k d pos rem b1 b2 res read out d' inner evs' dfin hcall hne _ ih =>
+    rw [textOf_append, textOf_append, textOf_cps, textOf_resEv]
+    exact .rawLast k d pos rem b1 b2 res read out d' inner _ dfin hcall hne ih
+  | chunkStep k d pos src rest b1 b2 res read out d' inner evs' dfin hcall _ ih =>
+    rw [textOf_append, textOf_append, textOf_cps, textOf_resEv]
+    exact .rawChunk k d pos src rest b1 b2 res read out d' inner _ dfin hcall ih
+
+/-- **for a decoder as made by `Encoding::new_decoder*`** (all 40 encodings, three BOM modes): any two
+histories over the same stream — each mixing the manual procedure and the built-in replacement in any
+way — assemble the same text, the replaced text of the documented semantics -/
+theorem new_decoder_mixed_histories_agree (v : Gen.Variant) (nom : Nominal) (bom : BomHandling)
+    (stream : List Nat) (text₁ text₂ : List Nat) (d₁ d₂ : Decoder (famOfVariant v))
+    (h₁ : DMixHist (Decoder.new (famOfVariant v) nom bom) 0 stream text₁ d₁)
+    (h₂ : DMixHist (Decoder.new (famOfVariant v) nom bom) 0 stream text₂ d₂) :
+    text₁ = text₂ ∧ text₁ = textOf true (dref (Decoder.new (famOfVariant v) nom bom) stream 0) := by
+  have a₁ := dmixhist_eq_dref (famBB_variant v) _ 0 stream text₁ d₁ (newInv_new nom bom) h₁
+  have a₂ := dmixhist_eq_dref (famBB_variant v) _ 0 stream text₂ d₂ (newInv_new nom bom) h₂
+  exact ⟨a₁.trans a₂.symm, a₁⟩
 
 /-! ### Non-vacuity
 
